@@ -2,6 +2,7 @@
 
 use crate::env::{self, Cb};
 use crate::exec::OpOut;
+use crate::ops_iter::consume;
 use crate::payload::{Class, SimK, SimV};
 use crate::plan::{CloneKeep, End, EntryAct, Form, IterKind, Op, T};
 use crate::world::{has_class, snap_map, violate, Cx, Snap};
@@ -144,6 +145,62 @@ pub fn forget_remaining<K: SimK, V: SimV>(cx: &mut Cx<K, V>, s: &Snap, sess: &Se
     }
 }
 
+/// Lets go of the rest of a borrowing iterator through one of the provided `Iterator` methods.
+/// `$see` is called with every item that comes back.
+macro_rules! finish_iter {
+    ($it:expr, $fin:expr, $k:expr, $cx:expr, $aw:expr, |$x:ident| $see:expr) => {{
+        let mut it = $it;
+        let left = it.len();
+        match $fin {
+            1 => {
+                let n = win!($aw, it.count());
+                $cx.dg(n as u64);
+            }
+            2 => {
+                if let Some($x) = win!($aw, it.last()) {
+                    $see;
+                }
+            }
+            3 => {
+                if let Some($x) = win!($aw, it.nth($k)) {
+                    $see;
+                }
+                $cx.dg(it.len() as u64);
+                if it.len() > left {
+                    violate("inexact-length", "a borrowing iterator grew while stepping".into());
+                }
+            }
+            4 => {
+                let n = win!($aw, it.fold(0usize, |acc, $x| {
+                    env::touch(Cb::Closure, None, None);
+                    let _p = crate::alloc::Pause::new();
+                    $see;
+                    acc + 1
+                }));
+                $cx.dg(n as u64);
+            }
+            5 => {
+                let mut c = 0usize;
+                if let Some($x) = win!($aw, it.find(|_| {
+                    env::touch(Cb::Pred, None, None);
+                    c += 1;
+                    c > $k
+                })) {
+                    $see;
+                }
+            }
+            6 => {
+                let h = it.size_hint();
+                $cx.dg(h.0 as u64 ^ (h.1.unwrap_or(999) as u64) << 8 ^ (it.len() as u64) << 16);
+            }
+            _ => {
+                $cx.dg(it.len() as u64);
+            }
+        }
+    }};
+}
+pub(crate) use finish_iter;
+
 pub fn map_op<K: SimK, V: SimV, const C: usize>(m: &mut Map<K, V, C>, cx: &mut Cx<K, V>, op: &Op, t: T, pre: &Snap, out: &mut OpOut) {
     let aw = cx.cfg.alloc_window;
     let (base, size) = range_of(m);
@@ -248,37 +305,16 @@ pub fn map_op<K: SimK, V: SimV, const C: usize>(m: &mut Map<K, V, C>, cx: &mut C
         Op::Drain { take, end, .. } => {
             let mut sess = Session::new("drain", pre, (true, true));
             {
-                let mut d = win!(aw, m.drain());
-                loop {
-                    sess.before_step(d.len(), d.size_hint());
-                    if sess.taken >= *take as usize && *end != End::Exhaust {
-                        break;
-                    }
-                    match win!(aw, d.next()) {
-                        Some((k, v)) => {
-                            sess.got(k.peek().id, v.peek().id, (K::ANON, V::ANON));
-                            cx.ret_k("drain", k);
-                            cx.ret_v("drain", v);
-                        }
-                        None => {
-                            sess.none();
-                            for _ in 0..3 {
-                                if let Some((k, v)) = win!(aw, d.next()) {
-                                    sess.got(k.peek().id, v.peek().id, (K::ANON, V::ANON));
-                                    cx.ret_k("drain", k);
-                                    cx.ret_v("drain", v);
-                                }
-                            }
-                            break;
-                        }
-                    }
-                }
-                match end {
-                    End::Forget => {
+                let d = win!(aw, m.drain());
+                let rest = consume(d, cx, &mut sess, *take, *end, |x: &(K, V)| (x.0.peek().id, x.1.peek().id), |cx, x| {
+                    cx.ret_k("drain", x.0);
+                    cx.ret_v("drain", x.1);
+                }, (K::ANON, V::ANON));
+                if let Some(d) = rest {
+                    if *end == End::Forget {
                         forget_remaining(cx, pre, &sess, true);
                         std::mem::forget(d);
-                    }
-                    _ => {
+                    } else {
                         if sess.taken < pre.len() {
                             cx.probe("drain_dropped_with_remaining");
                         }
@@ -295,37 +331,16 @@ pub fn map_op<K: SimK, V: SimV, const C: usize>(m: &mut Map<K, V, C>, cx: &mut C
         Op::IntoIter { take, end, .. } => {
             let mut sess = Session::new("into_iter", pre, (true, true));
             let owned = std::mem::replace(m, Map::new());
-            let mut it = win!(aw, owned.into_iter());
-            loop {
-                sess.before_step(it.len(), it.size_hint());
-                if sess.taken >= *take as usize && *end != End::Exhaust {
-                    break;
-                }
-                match win!(aw, it.next()) {
-                    Some((k, v)) => {
-                        sess.got(k.peek().id, v.peek().id, (K::ANON, V::ANON));
-                        cx.ret_k("into_iter", k);
-                        cx.ret_v("into_iter", v);
-                    }
-                    None => {
-                        sess.none();
-                        for _ in 0..3 {
-                            if let Some((k, v)) = win!(aw, it.next()) {
-                                sess.got(k.peek().id, v.peek().id, (K::ANON, V::ANON));
-                                cx.ret_k("into_iter", k);
-                                cx.ret_v("into_iter", v);
-                            }
-                        }
-                        break;
-                    }
-                }
-            }
-            match end {
-                End::Forget => {
+            let it = win!(aw, owned.into_iter());
+            let rest = consume(it, cx, &mut sess, *take, *end, |x: &(K, V)| (x.0.peek().id, x.1.peek().id), |cx, x| {
+                cx.ret_k("into_iter", x.0);
+                cx.ret_v("into_iter", x.1);
+            }, (K::ANON, V::ANON));
+            if let Some(it) = rest {
+                if *end == End::Forget {
                     forget_remaining(cx, pre, &sess, true);
                     std::mem::forget(it);
-                }
-                _ => {
+                } else {
                     if sess.taken < pre.len() {
                         cx.probe("into_iter_dropped_with_remaining");
                     }
@@ -336,73 +351,34 @@ pub fn map_op<K: SimK, V: SimV, const C: usize>(m: &mut Map<K, V, C>, cx: &mut C
         Op::IntoKeys { take, end, .. } => {
             let mut sess = Session::new("into_keys", pre, (true, false));
             let owned = std::mem::replace(m, Map::new());
-            let mut it = win!(aw, owned.into_keys());
-            loop {
-                sess.before_step(it.len(), it.size_hint());
-                if sess.taken >= *take as usize && *end != End::Exhaust {
-                    break;
-                }
-                match win!(aw, it.next()) {
-                    Some(k) => {
-                        sess.got(k.peek().id, 0, (K::ANON, V::ANON));
-                        cx.ret_k("into_keys", k);
-                    }
-                    None => {
-                        sess.none();
-                        for _ in 0..3 {
-                            if let Some(k) = win!(aw, it.next()) {
-                                sess.got(k.peek().id, 0, (K::ANON, V::ANON));
-                                cx.ret_k("into_keys", k);
-                            }
-                        }
-                        break;
-                    }
-                }
-            }
-            match end {
-                End::Forget => {
+            let it = win!(aw, owned.into_keys());
+            let rest = consume(it, cx, &mut sess, *take, *end, |x: &K| (x.peek().id, 0), |cx, x| cx.ret_k("into_keys", x), (K::ANON, V::ANON));
+            if let Some(it) = rest {
+                if *end == End::Forget {
                     forget_remaining(cx, pre, &sess, true);
                     std::mem::forget(it);
+                } else {
+                    win!(aw, drop(it));
                 }
-                _ => win!(aw, drop(it)),
             }
         }
         Op::IntoValues { take, end, .. } => {
             let mut sess = Session::new("into_values", pre, (false, true));
             let owned = std::mem::replace(m, Map::new());
-            let mut it = win!(aw, owned.into_values());
-            loop {
-                sess.before_step(it.len(), it.size_hint());
-                if sess.taken >= *take as usize && *end != End::Exhaust {
-                    break;
-                }
-                match win!(aw, it.next()) {
-                    Some(v) => {
-                        sess.got(0, v.peek().id, (K::ANON, V::ANON));
-                        cx.ret_v("into_values", v);
-                    }
-                    None => {
-                        sess.none();
-                        for _ in 0..3 {
-                            if let Some(v) = win!(aw, it.next()) {
-                                sess.got(0, v.peek().id, (K::ANON, V::ANON));
-                                cx.ret_v("into_values", v);
-                            }
-                        }
-                        break;
-                    }
-                }
-            }
-            match end {
-                End::Forget => {
+            let it = win!(aw, owned.into_values());
+            let rest = consume(it, cx, &mut sess, *take, *end, |x: &V| (0, x.peek().id), |cx, x| cx.ret_v("into_values", x), (K::ANON, V::ANON));
+            if let Some(it) = rest {
+                if *end == End::Forget {
                     forget_remaining(cx, pre, &sess, true);
                     std::mem::forget(it);
+                } else {
+                    win!(aw, drop(it));
                 }
-                _ => win!(aw, drop(it)),
             }
         }
-        Op::Iter { kind, take, clone_at, .. } => {
+        Op::Iter { kind, take, clone_at, fin, .. } => {
             let take = *take as usize;
+            let fin = *fin;
             cx.tagctr += 1;
             let np = 7000 + cx.tagctr as u64 * 32;
             match kind {
@@ -424,7 +400,7 @@ pub fn map_op<K: SimK, V: SimV, const C: usize>(m: &mut Map<K, V, C>, cx: &mut C
                         }
                         j += 1;
                     }
-                    cx.dg(it.len() as u64);
+                    finish_iter!(it, fin, take, cx, aw, |x| { cx.see_k("iter", x.0, base, size); cx.see_v("iter", x.1, base, size); });
                 }
                 IterKind::IterMut | IterKind::MutIntoIter => {
                     let mut it = if *kind == IterKind::IterMut { win!(aw, m.iter_mut()) } else { win!(aw, (&mut *m).into_iter()) };
@@ -440,7 +416,7 @@ pub fn map_op<K: SimK, V: SimV, const C: usize>(m: &mut Map<K, V, C>, cx: &mut C
                         }
                         j += 1;
                     }
-                    cx.dg(it.len() as u64);
+                    finish_iter!(it, fin, take, cx, aw, |x| { cx.see_k("iter_mut", x.0, base, size); cx.see_v("iter_mut", x.1, base, size); x.1.set_payload(np + 77); });
                 }
                 IterKind::Keys => {
                     let mut it = win!(aw, m.keys());
@@ -458,7 +434,7 @@ pub fn map_op<K: SimK, V: SimV, const C: usize>(m: &mut Map<K, V, C>, cx: &mut C
                         }
                         j += 1;
                     }
-                    cx.dg(it.len() as u64);
+                    finish_iter!(it, fin, take, cx, aw, |x| { cx.see_k("keys", x, base, size); });
                 }
                 IterKind::Values => {
                     let mut it = win!(aw, m.values());
@@ -476,7 +452,7 @@ pub fn map_op<K: SimK, V: SimV, const C: usize>(m: &mut Map<K, V, C>, cx: &mut C
                         }
                         j += 1;
                     }
-                    cx.dg(it.len() as u64);
+                    finish_iter!(it, fin, take, cx, aw, |x| { cx.see_v("values", x, base, size); });
                 }
                 IterKind::ValuesMut => {
                     let mut it = win!(aw, m.values_mut());
@@ -491,7 +467,7 @@ pub fn map_op<K: SimK, V: SimV, const C: usize>(m: &mut Map<K, V, C>, cx: &mut C
                         }
                         j += 1;
                     }
-                    cx.dg(it.len() as u64);
+                    finish_iter!(it, fin, take, cx, aw, |x| { cx.see_v("values_mut", x, base, size); x.set_payload(np + 78); });
                 }
             }
         }
@@ -511,6 +487,32 @@ pub fn map_op<K: SimK, V: SimV, const C: usize>(m: &mut Map<K, V, C>, cx: &mut C
                 CloneKeep::KeepClone => {
                     let old = std::mem::replace(m, c2);
                     win!(aw, drop(old));
+                }
+                CloneKeep::CloneFrom(prefill) => {
+                    // the destination is a container of the same type that already holds entries
+                    cx.probe("clone_from_into_nonempty");
+                    win!(aw, drop(c2));
+                    let mut dst: Map<K, V, C> = Map::new();
+                    for i in 0..(*prefill as usize).min(C) {
+                        let k = cx.mk_k(100 + i as u32);
+                        let v = cx.mk_v();
+                        if let Some(old) = win!(aw, dst.insert(k, v)) {
+                            cx.ret_v("insert", old);
+                        }
+                    }
+                    // park it in the map's place while clone_from runs, so that a panic leaves both
+                    // containers where the standing checks (and the final drop) can see them
+                    let src = std::mem::replace(m, dst);
+                    let r = std::panic::catch_unwind(std::panic::AssertUnwindSafe(|| win!(aw, m.clone_from(&src))));
+                    crate::world::observing(|| crate::world::wf_map("source of clone_from", &src, cx.lying));
+                    match r {
+                        Ok(()) => win!(aw, drop(src)),
+                        Err(p) => {
+                            // the source survives a failed clone_from untouched; drop it outside the faulted region
+                            crate::world::observing(|| drop(src));
+                            std::panic::resume_unwind(p);
+                        }
+                    }
                 }
             }
         }
@@ -627,6 +629,7 @@ fn map_lookup<K: SimK + Borrow<Q>, V: SimV, const C: usize, Q: PartialEq + ?Size
 #[allow(clippy::too_many_arguments)]
 fn entry_op<K: SimK, V: SimV, const C: usize>(m: &mut Map<K, V, C>, cx: &mut Cx<K, V>, c: u32, act: EntryAct, t: T, pre: &Snap, out: &mut OpOut, base: usize, size: usize) {
     let aw = cx.cfg.alloc_window;
+    let anon_keys_before = env::with(|e| e.anon_live[0]);
     let k = cx.mk_k(c);
     let kid = k.peek().id;
     cx.tagctr += 1;
@@ -695,6 +698,10 @@ fn entry_op<K: SimK, V: SimV, const C: usize>(m: &mut Map<K, V, C>, cx: &mut Cx<
             if p.bad != 0 {
                 violate("use-of-nonlive", "Entry::key() returned a reference to something that is not a key".into());
             }
+            if !vacant {
+                // an occupied entry's key is the stored key: it lives inside the map
+                cx.see_k("Entry::key (occupied)", kk, base, size);
+            }
             win!(aw, drop(e));
         }
         EntryAct::Abandon => {
@@ -702,15 +709,18 @@ fn entry_op<K: SimK, V: SimV, const C: usize>(m: &mut Map<K, V, C>, cx: &mut Cx<
             win!(aw, drop(e));
         }
         EntryAct::Forget => {
-            if vacant {
-                if K::ANON {
-                    cx.anon_forgotten[0] += 1;
-                } else {
-                    cx.forgotten.push(kid);
-                }
-                cx.probe("vacant_entry_forgotten");
-            }
             std::mem::forget(e);
+            // whatever key object the forgotten entry still owned is gone with it (a vacant entry
+            // owns the probe key; an occupied one may or may not keep it)
+            if K::ANON {
+                if env::with(|e| e.anon_live[0]) == anon_keys_before + 1 {
+                    cx.anon_forgotten[0] += 1;
+                    cx.probe("entry_forgotten_with_key");
+                }
+            } else if !K::PLAIN && env::with(|e| e.objs[kid as usize - 1].live()) && !snap_map(m).iter().any(|x| x.kid == kid) {
+                cx.forgotten.push(kid);
+                cx.probe("entry_forgotten_with_key");
+            }
         }
         _ => match e {
             Entry::Occupied(mut o) => match act {
